@@ -126,3 +126,48 @@ def syms : Rx → List Sym
 
 end Rx
 end Cpppo.Rx
+
+/-! ### a language-preserving simplifier (keeps the set of iterated derivatives small) -/
+namespace Cpppo.Rx
+namespace Rx
+
+/-- `a` is one of the alternatives on the right spine of `r` -/
+def inSpine (a : Rx) : Rx → Bool
+  | alt x y => x == a || inSpine a y
+  | z => z == a
+
+/-- alternation: drop `∅`, re-associate to the right, drop an alternative that is already present -/
+def mkAlt : Rx → Rx → Rx
+  | none, s => s
+  | alt a b, s => let t := mkAlt b s; if inSpine a t then t else alt a t
+  | r, s => if s == none then r else if inSpine r s then s else alt r s
+
+/-- concatenation: `∅` annihilates, `ε` is neutral, re-associate to the right -/
+def mkCat : Rx → Rx → Rx
+  | cat a b, s => if s == none then none else cat a (mkCat b s)
+  | r, s =>
+    if r == none || s == none then none
+    else if r == eps then s
+    else if s == eps then r
+    else cat r s
+
+def mkStar (r : Rx) : Rx :=
+  if r == none || r == eps then eps else star r
+
+def simp : Rx → Rx
+  | alt r s => mkAlt (simp r) (simp s)
+  | cat r s => mkCat (simp r) (simp s)
+  | star r => mkStar (simp r)
+  | r => r
+
+/-- simplified derivative -/
+def nderiv (c : Sym) (r : Rx) : Rx := simp (deriv c r)
+
+def size : Rx → Nat
+  | alt r s => size r + size s + 1
+  | cat r s => size r + size s + 1
+  | star r => size r + 1
+  | _ => 1
+
+end Rx
+end Cpppo.Rx
